@@ -249,7 +249,15 @@ class C10(Check):
             real = 'e:' + exc_name(ex)
             mon.append(f'SD title directory rejected: {real}')
             key = 'sdtitle.init'
-        model = 'ok ' + ' '.join(str(k) for k, t in enumerate(present) if t) if rd is not None else real
+        # model side: the content loop of the Lean model (SdTitle.select) on the record names and the set of existing files;
+        # the monitor below compares with the presence flags directly
+        names_ = [(r[0].hex() + '.app').encode() for r in records]
+        m_ = drv.ask(('sdtitle-select', tuple(n for n, t in zip(names_, present) if t) or (), tuple(names_)))
+        if rd is not None and real != 'ok ' + ' '.join(str(k) for k, t in enumerate(present) if t):
+            mon.append(f'contents listed: {real}; files present for records {[k for k, t in enumerate(present) if t]}')
+            key = 'sdtitle.listing'
+        real = real.rstrip()
+        model = m_.rstrip() if rd is not None else real
         if rd is not None:
             for k, there in enumerate(present):
                 if there:
@@ -298,7 +306,15 @@ class C10(Check):
             real = 'e:' + exc_name(ex)
             mon.append(f'SD-encrypted title ({names}) rejected: {real}')
             key = 'sdtitle.enc.init'
-        model = 'ok ' + ' '.join(str(k) for k, t in enumerate(present) if t) if rd is not None else real
+        # model side: the content loop of the Lean model (SdTitle.select) on the record names and the set of existing files;
+        # the monitor below compares with the presence flags directly
+        names_ = [(r[0].hex() + '.app').encode() for r in records]
+        m_ = drv.ask(('sdtitle-select', tuple(n for n, t in zip(names_, present) if t) or (), tuple(names_)))
+        if rd is not None and real != 'ok ' + ' '.join(str(k) for k, t in enumerate(present) if t):
+            mon.append(f'contents listed: {real}; files present for records {[k for k, t in enumerate(present) if t]}')
+            key = 'sdtitle.listing'
+        real = real.rstrip()
+        model = m_.rstrip() if rd is not None else real
         if rd is not None:
             for k, there in enumerate(present):
                 if there:
